@@ -46,7 +46,7 @@ def is_hot(m, icls):
 def caller_bits(m, role, args):
     """x_admin, x_self: the relation of the caller to the target of the call"""
     admin = role == 2
-    strs = [a[1] for a in args if a[0] == "s" and isinstance(a[1], str)]
+    strs = [a[1].replace("$SELF", ROLE_PH[role]) for a in args if a[0] == "s" and isinstance(a[1], str)]
     self_ = False
     g = m.guard
     if g["kind"] == "perm" and "PermissionSelf" in g["perms"]:
@@ -102,6 +102,51 @@ def gen_histories(ctx, methods, icls, nvec, enabled):
         for i in range(0, len(cold), B):
             hists.append(dict(warm=True, audit=audit, zero=False, surface=False, calls=cold[i:i + B]))
             index.append(cold_ix[i:i + B])
+    gov = [m for m in methods if m.contract == "Governance" and m.origin == "own"]
+    byname = {m.key(): m for m in methods}
+    for audit in (False, True):
+        # (a) open proposals of four modules submitted under the default strategy, then every module switched to the
+        #     ZeroPermission strategy by a real governance proposal: no direct call may conclude or change them
+        calls, ix = [], []
+        zp = byname.get(("Governance", "ZeroPermission"))
+        for role in [0, 1, 3, 4, 2]:
+            for pid in ("$PA", "$P0", "$PN", "$PR"):
+                if zp is not None:
+                    a = [["s", pid]]
+                    calls.append(dict(c="Governance", m="ZeroPermission", role=role, args=a))
+                    ix.append((zp, role, audit, 0, a, True))
+        for m in gov:
+            if m.name == "ZeroPermission":
+                continue
+            for role in (0, 4):
+                a = [x if not (x[0] == "s" and x[1] == "$P0") else ["s", "$PA"] for x in L.well_typed_args(m, 0, r)]
+                calls.append(dict(c=m.contract, m=m.name, role=role, args=a))
+                ix.append((m, role, audit, 0, a, True))
+        hists.append(dict(warm=False, zswitch=True, audit=audit, zero=False, surface=False, calls=calls))
+        index.append(ix)
+        # (b) sequences of one unprivileged account through the open-by-design methods with other parties' accounts in
+        #     alternative spellings: register naming the victim, withdraw, register naming the victim canonically
+        ra, wd, ua = byname.get(("AppchainManager", "RegisterAppchain")), byname.get(("Governance", "WithdrawProposal")), byname.get(("AppchainManager", "UpdateAppchain"))
+        if ra is not None and wd is not None and ua is not None:
+            def reg(chain, admins):
+                return [["s", chain], ["s", "name-" + chain], ["b", "pk"], ["s", "ETH"], ["b", "t"], ["s", "0x857133c5C69e6Ce66F7AD46F200B9B3573e77582"],
+                        ["s", "d"], ["s", L.HAPPY_RULE], ["s", ""], ["s", admins], ["s", "r"]]
+            victims = ["$GOV1", "$ADMB", "$NODE"] if ctx.quick else ["$GOV1", "$GOV0", "$ADMB", "$ADMA", "$NODE"]
+            spellings = ["lower", "bare"] if ctx.quick else ["lower", "upper", "bare", "barelower"]
+            for vi, victim in enumerate(victims):
+                for sp in spellings:
+                    for role, wid in ((0, "$SELF-0"), (3, "$SELF-0")):
+                        seq = [(ra, reg("chainQ", "$SELF,%s~%s" % (victim, sp))), (wd, [["s", wid], ["s", "r"]]), (ra, reg("chainR", "$SELF," + victim)),
+                               (wd, [["s", wid.replace("-0", "-1")], ["s", "r"]])]
+                        hists.append(dict(warm=False, audit=audit, zero=False, surface=False,
+                                          calls=[dict(c=m.contract, m=m.name, role=role, args=a) for m, a in seq]))
+                        index.append([(m, role, audit, 0, a, True) for m, a in seq])
+                    # the admin of chainA through UpdateAppchain (its proposals so far: $ADMA-0, $ADMA-1)
+                    seq = [(ua, [["s", "chainA"], ["s", "name-chainA-2"], ["s", "d"], ["b", "t"], ["s", "$SELF,%s~%s" % (victim, sp)], ["s", "r"]]),
+                           (wd, [["s", "$SELF-2"], ["s", "r"]])]
+                    hists.append(dict(warm=False, audit=audit, zero=False, surface=False,
+                                      calls=[dict(c=m.contract, m=m.name, role=4, args=a) for m, a in seq]))
+                    index.append([(m, 4, audit, 0, a, True) for m, a in seq])
     # an unknown method and an unknown contract method name
     hists.append(dict(audit=False, zero=False, surface=True,
                       calls=[dict(c="Store", m="NoSuchMethod", role=0, args=[]), dict(c="Governance", m="vote", role=2, args=[])]))
@@ -109,15 +154,46 @@ def gen_histories(ctx, methods, icls, nvec, enabled):
     return hists, index
 
 
-def case_literal(contract, method, typed, admin, self_, o):
+PARTIES = ["$OUT", "$ADMB", "$GOV0", "$GOV1", "$NODE", "$ADMA", "$NEW", "$ADMC", "$WARMROLE", "$ZNEW", "$ZROLE"]
+OWN_OBJECTS = {4: ("chainA", "svcA"), 1: ("chainB", "svcB")}
+
+
+def foreign_entries(role, o, created=()):
+    """existing records (op set/del, not new) whose key names - in the canonical spelling - another party than the
+    caller or an object of another party; returned as (contract, key prefix up to the first name)"""
+    own = ROLE_PH[role]
+    out = []
+    for d in o.get("diff", []):
+        if len(d) < 3 or d[2] == "new":
+            continue
+        key = d[1]
+        if (d[0], key) in created:
+            continue      # a record this caller created earlier in the same history is its own
+        toks = [m.group(1) for m in re.finditer(r"(\$[A-Z0-9]+)(?![A-Z0-9~])", key)]
+        hit = any(t in PARTIES and t != own for t in toks)
+        for r_, objs in OWN_OBJECTS.items():
+            if r_ != role and any(x in key for x in objs):
+                hit = True
+        if hit:
+            cut = len(key)
+            for mark in ["$"] + [x for objs in OWN_OBJECTS.values() for x in objs]:
+                i = key.find(mark)
+                if i >= 0:
+                    cut = min(cut, i)
+            out.append((d[0], key[:cut]))
+    return sorted(set(out))
+
+
+def case_literal(contract, method, typed, admin, self_, o, role=0, created=()):
     diff = [d[0] for d in o.get("diff", [])]
     err = o.get("err", "")
     crash = bool(o.get("crash"))
     e = 9 if crash else ERR.get(err, 4)
     return ("{| c_contract := %s; c_method := %s; c_typed := %s; c_caller := {| x_id := 1; x_admin := %s; x_self := %s |}; "
-            "c_obs := {| o_ok := %s; o_err := %d; o_diff := %s; o_acct := %d; o_mem := %s; o_cache := %s; o_crash := %s |} |}"
+            "c_obs := {| o_ok := %s; o_err := %d; o_diff := %s; o_acct := %d; o_mem := %s; o_cache := %s; o_crash := %s; o_foreign := %s |} |}"
             % (gstr(contract), gstr(method), gbool(typed), gbool(admin), gbool(self_), gbool(o.get("ok", False)), e,
-               glist(diff, gstr), len(o.get("acct", [])), gbool(o.get("mem", False)), gbool(o.get("cache", False)), gbool(crash)))
+               glist(diff, gstr), len(o.get("acct", [])), gbool(o.get("mem", False)), gbool(o.get("cache", False)), gbool(crash),
+               glist(foreign_entries(role, o, created), lambda p: "(%s, %s)" % (gstr(p[0]), gstr(p[1])))))
 
 
 def cfg_current_literal(known):
@@ -263,16 +339,19 @@ def run(ctx):
         if len(cs) != len(ix):
             ctx.broken("driver:surface", "history %d: %d results for %d calls" % (hn, len(cs), len(ix)))
             continue
+        created = {}
         for cn, (entry, ob) in enumerate(zip(ix, cs)):
             m, role, audit, vec, args, typed = entry
+            mine = frozenset(created.get(role, ()))
+            created.setdefault(role, set()).update((d[0], d[1]) for d in ob.get("diff", []) if len(d) >= 3 and d[2] == "new")
             if ob.get("norun"):
                 ctx.broken("driver:surface", "call not run: %s %s" % (h["calls"][cn], ob.get("err")))
                 continue
             if m is None:
-                lit = case_literal(h["calls"][cn]["c"], h["calls"][cn]["m"], typed, role == 2, False, ob)
+                lit = case_literal(h["calls"][cn]["c"], h["calls"][cn]["m"], typed, role == 2, False, ob, role, mine)
             else:
                 admin, self_ = caller_bits(m, role, args)
-                lit = case_literal(m.contract, m.name, typed, admin, self_, ob)
+                lit = case_literal(m.contract, m.name, typed, admin, self_, ob, role, mine)
             rows.append((hn, cn, entry, ob, lit))
     verdicts = judge(ctx, [r[4] for r in rows], known)
     dist = {}
@@ -290,7 +369,7 @@ def run(ctx):
             if v[0] == 0:
                 continue
             what = describe(entry, ob)
-            rep = dict(property="C17", driver="surface", history=dict(warm=hists[hn].get("warm", False), audit=hists[hn].get("audit", False), zero=hists[hn].get("zero", False),
+            rep = dict(property="C17", driver="surface", history=dict(warm=hists[hn].get("warm", False), zswitch=hists[hn].get("zswitch", False), audit=hists[hn].get("audit", False), zero=hists[hn].get("zero", False),
                                                                         surface=False, calls=hists[hn]["calls"][:cn + 1]),
                        failing_call=cn, obs=ob, verdict=v, what=what)
             if v[0] == 2:
@@ -323,13 +402,16 @@ def run_one(ctx, exe, hist, known, bykey):
         return None
     res = []
     lits = []
+    created = {}
     for c, ob in zip(hist["calls"], outs[0]["calls"]):
+        mine = frozenset(created.get(c["role"], ()))
+        created.setdefault(c["role"], set()).update((d[0], d[1]) for d in ob.get("diff", []) if len(d) >= 3 and d[2] == "new")
         m = bykey.get((c["c"], c["m"]))
         if m is None:
-            lit = case_literal(c["c"], c["m"], True, c["role"] == 2, False, ob)
+            lit = case_literal(c["c"], c["m"], True, c["role"] == 2, False, ob, c["role"], mine)
         else:
             admin, self_ = caller_bits(m, c["role"], c["args"])
-            lit = case_literal(m.contract, m.name, c.get("typed", not any(p.startswith("other:") for p in m.params)), admin, self_, ob)
+            lit = case_literal(m.contract, m.name, c.get("typed", not any(p.startswith("other:") for p in m.params)), admin, self_, ob, c["role"], mine)
         lits.append(lit)
         res.append(ob)
     vs = judge(ctx, lits, known, tag="C17r")
